@@ -310,8 +310,10 @@ class Oracle:
             bends = prog.tdim == prog.gdim and (xsub["raw"].embedded_superdegree > 1 or prog.cell in ("quadrilateral", "hexahedron", "prism"))
             if bends and (part.nderiv >= 2 or (part.nderiv >= 1 and any(s_["map"] != "identity" for sp in prog.spaces.values() for s_ in sp.subs))):
                 nder = max(2, nder)          # Fem.tla then also gets the second derivatives of the geometry
+            # raw elements this part's integrand refers to (through its coefficient leaves)
+            used_raw = {repr(sb["raw"]) for lf in part.cleaves for sb in prog.spaces[prog.coefs[lf["k"]]].subs}
             for key_, (name, sub) in prog.raw_names.items():
-                tabs[name] = [tabulate_raw(sub, xq[s], nder, prog.tdim) for s in range(prog.nsides)]
+                tabs[name] = [tabulate_raw(sub, xq[s], nder, prog.tdim, unused=key_ not in used_raw) for s in range(prog.nsides)]
             parts.append({"tree": part.tree, "aleaves": part.aleaves, "cleaves": part.cleaves,
                           "pts": [[fr(c) for c in p] for p in pts], "wts": [fr(w) for w in wts],
                           "xq": [[[fr(c) for c in p] for p in xs] for xs in xq], "tabs": tabs,
